@@ -17,100 +17,110 @@ CREATE TABLE nodes (id bigint NOT NULL, "left" int, "right" int, "full" text, "l
 
 const corpusMy = "CREATE TABLE authors (id bigint NOT NULL, name varchar(100) NOT NULL, bio text, age int, active tinyint(1) NOT NULL);\n" +
 	"CREATE TABLE books (id bigint NOT NULL, author_id bigint NOT NULL, title varchar(200), price decimal(10,2), `order` int);\n" +
-	"CREATE TABLE venues (id bigint NOT NULL, name varchar(100), slug text NOT NULL, created_at datetime, `order` int NOT NULL);\n"
+	"CREATE TABLE venues (id bigint NOT NULL, name varchar(100), slug text NOT NULL, created_at datetime, `order` int NOT NULL);\n" +
+	// a table created LIKE another one, after which the ORIGINAL is altered: the copy must not follow
+	"CREATE TABLE people (id bigint NOT NULL, first_name varchar(50) NOT NULL, note text);\n" +
+	"CREATE TABLE staff LIKE people;\n" +
+	"ALTER TABLE people RENAME COLUMN first_name TO given_name;\n" +
+	"ALTER TABLE people DROP COLUMN note;\n"
 
 type corpusStmt struct {
 	cmd, sql string
 	known    []string
+	has, gone [][2]string // what the schema history leaves behind, stated independently of sqlc's catalog
 }
 
 var l2CorpusPG = []corpusStmt{
-	{":many", `SELECT * FROM authors`, nil},
-	{":one", `SELECT id, name, bio, age, tags FROM authors WHERE id = $1`, nil},
-	{":many", `SELECT a.* FROM authors a`, nil},
-	{":many", `SELECT a.*, b.* FROM authors a JOIN books b ON b.author_id = a.id`, nil},
-	{":many", `SELECT * FROM books a JOIN venues b ON b.id = a.id`, nil},
-	{":many", `SELECT * FROM books "order" JOIN authors b ON b.id = "order".id`, nil},
-	{":many", `SELECT b.* FROM books a JOIN archive.books b ON b.id = a.id`, nil},
-	{":many", `SELECT b.*, a.id AS aid FROM archive.books a JOIN books b ON b.id = a.id WHERE a.title = $1`, nil},
-	{":many", `SELECT v.slug, w.slug FROM venues v JOIN archive.venues w ON w.id = v.id WHERE w.slug = $1`, nil},
-	{":many", `SELECT w.* FROM archive.venues w JOIN venues v ON v.id = w.id`, nil},
-	{":many", `SELECT a.title, b.title FROM books a JOIN archive.books b ON b.id = a.id WHERE b.title = $1 AND a.title = $2`, nil},
-	{":many", `WITH c AS (SELECT id, tags FROM authors) SELECT c.* FROM c`, nil},
-	{":many", `WITH c AS (SELECT * FROM authors) SELECT c.*, (SELECT count(*) FROM c y WHERE y.id < c.id) AS rnk FROM c`, nil},
-	{":many", `WITH c(a, b) AS (SELECT id, tags FROM authors) SELECT * FROM c`, nil},
-	{":many", `SELECT * FROM (SELECT id, tags FROM authors) AS s(a, b)`, []string{"subselectLeak"}},
-	{":many", `SELECT s.id FROM (SELECT id, name FROM authors) s`, []string{"subselectLeak"}},
-	{":many", `SELECT id, coalesce(bio, name) AS bio, coalesce(bio::text, name::text) AS both, coalesce(age::date, id::date, now()::date) FROM authors`, nil},
-	{":many", `SELECT id, CASE WHEN id > 0 THEN 'p' ELSE name::text END AS label, CASE WHEN bio IS NULL THEN 1 ELSE 2 END FROM authors`, nil},
-	{":many", `SELECT count(*), max(id) AS top, lower(name), name || 'x', age + 1, age IS NULL, (SELECT max(b.id) FROM books b) AS m FROM authors GROUP BY name, age`, nil},
-	{":many", `SELECT id FROM authors WHERE id IN (SELECT author_id FROM books WHERE title = $1) AND name = $2`, nil},
-	{":many", `SELECT id FROM authors WHERE name = $1 AND EXISTS (SELECT 1 FROM books)`, nil},
-	{":many", `SELECT id FROM authors UNION SELECT id FROM books`, nil},
-	{":exec", `DELETE FROM authors WHERE id NOT IN (SELECT author_id FROM books)`, nil},
-	{":many", `SELECT a.id FROM authors a JOIN authors b ON b.id = a.id WHERE b.name = $1`, nil},
-	{":many", `SELECT cur.id FROM venues AS authors JOIN authors AS cur ON cur.id = authors.id WHERE authors.slug = $1`, nil},
-	{":exec", `INSERT INTO authors (id, name, bio, age, tags) VALUES ($1, $2, $3, $4, $5)`, nil},
-	{":exec", `INSERT INTO authors (id, name, tags) VALUES ($1, $2, $3), ($4, $5, $6)`, nil},
-	{":exec", `INSERT INTO authors (id, name, tags) VALUES ($1, $2, $3), ($4, $2, $3)`, nil},
-	{":exec", `INSERT INTO authors (id, name, tags) SELECT b.id, $1, $2 FROM books b WHERE b.title = $3 ON CONFLICT (id) DO UPDATE SET bio = $4, age = $5`, nil},
-	{":exec", `UPDATE authors SET bio = (SELECT max(b.title) FROM books b WHERE b.author_id = authors.id), name = $1, age = $2 WHERE id = $3`, nil},
-	{":exec", `UPDATE books SET title = $2, price = $3 WHERE id = $1`, nil},
-	{":one", `UPDATE books SET title = $1 WHERE id = $2 RETURNING id, title AS changed, *`, nil},
-	{":exec", `UPDATE authors SET name = $1 FROM books b WHERE b.author_id = authors.id AND b.title = $2`, nil},
-	{":many", `SELECT id FROM authors WHERE name = $2 AND bio = $1 AND age = $3`, nil},
-	{":many", `SELECT id FROM authors WHERE id = $1 OR (id > $1 AND id < $2)`, nil},
-	{":many", `SELECT id FROM authors WHERE name = $1 ORDER BY id LIMIT $2 OFFSET $3`, nil},
-	{":many", `SELECT id FROM authors WHERE lower(name) = lower($1) OR upper(bio) = upper($2)`, nil},
-	{":many", `SELECT id FROM authors WHERE id = $1 AND (strpos(name, $2) > 0 OR strpos(bio, $2) > 0)`, nil},
-	{":many", `SELECT name FROM authors WHERE id = ANY($1)`, nil},
-	{":many", `SELECT name FROM authors WHERE id = ANY($1::bigint[]) AND age <> ALL($2)`, nil},
-	{":many", `SELECT id FROM authors WHERE tags = $1 AND age = $2::int`, nil},
-	{":many", `SELECT id FROM books WHERE kind = $1 AND "order" = $2`, nil},
-	{":many", `SELECT id FROM authors WHERE name = @name AND bio = @bio AND id <> @id`, nil},
-	{":many", `SELECT id FROM authors WHERE name = sqlc.arg(name) AND age > sqlc.arg('age')`, nil},
-	{":many", `SELECT id FROM authors WHERE a.b.c = $1`, nil},
-	{":many", `SELECT public.authors.id FROM public.authors WHERE public.authors.name = $1`, nil},
-	{":exec", `TRUNCATE authors`, nil},
-	{":many", `SELECT id, NULL AS missing, 0 AS rank, 'x' AS tag FROM authors UNION ALL SELECT id, title, "order", title FROM books`, nil},
-	{":many", `SELECT id, name AS label FROM authors UNION SELECT id, title FROM books`, nil},
-	{":many", `SELECT id, name FROM authors INTERSECT SELECT id, title FROM books EXCEPT SELECT id, slug FROM venues`, nil},
-	{":one", `UPDATE authors SET bio = s.total::text FROM (SELECT author_id, count(*) AS total FROM books GROUP BY author_id) s WHERE s.author_id = authors.id RETURNING *`, nil},
-	{":one", `UPDATE authors SET bio = b.title FROM books b WHERE b.author_id = authors.id RETURNING *`, nil},
-	{":one", `UPDATE authors SET bio = b.title FROM books b WHERE b.author_id = authors.id RETURNING authors.*`, nil},
-	{":one", `DELETE FROM authors USING books b WHERE b.author_id = authors.id RETURNING *`, nil},
-	{":one", `INSERT INTO authors (id, name, tags) VALUES ($1, $2, $3) RETURNING *`, nil},
-	{":many", `SELECT id, name, coalesce(bio, '') AS bio, age, tags FROM authors`, nil},
-	{":many", `SELECT id, name, bio, age::bigint AS age, tags FROM authors`, nil},
-	{":many", `SELECT * FROM nodes`, nil},
-	{":many", `SELECT n.*, a.id AS aid FROM nodes n JOIN authors a ON a.id = n.id`, nil},
-	{":many", `SELECT id, "left", "right", "full", "like", "user", "binary" FROM nodes WHERE "left" = $1`, nil},
-	{":many", `SELECT id FROM authors a WHERE a.name = $1 AND a.id = $2 AND a.bio = $3 AND a.age = $4 AND a.name <> $5 AND a.id <> $6 AND a.bio <> $7 AND a.age <> $8 AND a.name > $9 AND a.id > $10 AND a.bio > $11 AND a.age > $12 AND EXISTS (SELECT 1 FROM books b WHERE b.title = $1)`, nil},
+	{":many", `SELECT * FROM authors`, nil, nil, nil},
+	{":one", `SELECT id, name, bio, age, tags FROM authors WHERE id = $1`, nil, nil, nil},
+	{":many", `SELECT a.* FROM authors a`, nil, nil, nil},
+	{":many", `SELECT a.*, b.* FROM authors a JOIN books b ON b.author_id = a.id`, nil, nil, nil},
+	{":many", `SELECT * FROM books a JOIN venues b ON b.id = a.id`, nil, nil, nil},
+	{":many", `SELECT * FROM books "order" JOIN authors b ON b.id = "order".id`, nil, nil, nil},
+	{":many", `SELECT b.* FROM books a JOIN archive.books b ON b.id = a.id`, nil, nil, nil},
+	{":many", `SELECT b.*, a.id AS aid FROM archive.books a JOIN books b ON b.id = a.id WHERE a.title = $1`, nil, nil, nil},
+	{":many", `SELECT v.slug, w.slug FROM venues v JOIN archive.venues w ON w.id = v.id WHERE w.slug = $1`, nil, nil, nil},
+	{":many", `SELECT w.* FROM archive.venues w JOIN venues v ON v.id = w.id`, nil, nil, nil},
+	{":many", `SELECT a.title, b.title FROM books a JOIN archive.books b ON b.id = a.id WHERE b.title = $1 AND a.title = $2`, nil, nil, nil},
+	{":many", `WITH c AS (SELECT id, tags FROM authors) SELECT c.* FROM c`, nil, nil, nil},
+	{":many", `WITH c AS (SELECT * FROM authors) SELECT c.*, (SELECT count(*) FROM c y WHERE y.id < c.id) AS rnk FROM c`, nil, nil, nil},
+	{":many", `WITH c(a, b) AS (SELECT id, tags FROM authors) SELECT * FROM c`, nil, nil, nil},
+	{":many", `SELECT * FROM (SELECT id, tags FROM authors) AS s(a, b)`, []string{"subselectLeak"}, nil, nil},
+	{":many", `SELECT s.id FROM (SELECT id, name FROM authors) s`, []string{"subselectLeak"}, nil, nil},
+	{":many", `SELECT id, coalesce(bio, name) AS bio, coalesce(bio::text, name::text) AS both, coalesce(age::date, id::date, now()::date) FROM authors`, nil, nil, nil},
+	{":many", `SELECT id, CASE WHEN id > 0 THEN 'p' ELSE name::text END AS label, CASE WHEN bio IS NULL THEN 1 ELSE 2 END FROM authors`, nil, nil, nil},
+	{":many", `SELECT count(*), max(id) AS top, lower(name), name || 'x', age + 1, age IS NULL, (SELECT max(b.id) FROM books b) AS m FROM authors GROUP BY name, age`, nil, nil, nil},
+	{":many", `SELECT id FROM authors WHERE id IN (SELECT author_id FROM books WHERE title = $1) AND name = $2`, nil, nil, nil},
+	{":many", `SELECT id FROM authors WHERE name = $1 AND EXISTS (SELECT 1 FROM books)`, nil, nil, nil},
+	{":many", `SELECT id FROM authors UNION SELECT id FROM books`, nil, nil, nil},
+	{":exec", `DELETE FROM authors WHERE id NOT IN (SELECT author_id FROM books)`, nil, nil, nil},
+	{":many", `SELECT a.id FROM authors a JOIN authors b ON b.id = a.id WHERE b.name = $1`, nil, nil, nil},
+	{":many", `SELECT cur.id FROM venues AS authors JOIN authors AS cur ON cur.id = authors.id WHERE authors.slug = $1`, nil, nil, nil},
+	{":exec", `INSERT INTO authors (id, name, bio, age, tags) VALUES ($1, $2, $3, $4, $5)`, nil, nil, nil},
+	{":exec", `INSERT INTO authors (id, name, tags) VALUES ($1, $2, $3), ($4, $5, $6)`, nil, nil, nil},
+	{":exec", `INSERT INTO authors (id, name, tags) VALUES ($1, $2, $3), ($4, $2, $3)`, nil, nil, nil},
+	{":exec", `INSERT INTO authors (id, name, tags) SELECT b.id, $1, $2 FROM books b WHERE b.title = $3 ON CONFLICT (id) DO UPDATE SET bio = $4, age = $5`, nil, nil, nil},
+	{":exec", `UPDATE authors SET bio = (SELECT max(b.title) FROM books b WHERE b.author_id = authors.id), name = $1, age = $2 WHERE id = $3`, nil, nil, nil},
+	{":exec", `UPDATE books SET title = $2, price = $3 WHERE id = $1`, nil, nil, nil},
+	{":one", `UPDATE books SET title = $1 WHERE id = $2 RETURNING id, title AS changed, *`, nil, nil, nil},
+	{":exec", `UPDATE authors SET name = $1 FROM books b WHERE b.author_id = authors.id AND b.title = $2`, nil, nil, nil},
+	{":many", `SELECT id FROM authors WHERE name = $2 AND bio = $1 AND age = $3`, nil, nil, nil},
+	{":many", `SELECT id FROM authors WHERE id = $1 OR (id > $1 AND id < $2)`, nil, nil, nil},
+	{":many", `SELECT id FROM authors WHERE name = $1 ORDER BY id LIMIT $2 OFFSET $3`, nil, nil, nil},
+	{":many", `SELECT id FROM authors WHERE lower(name) = lower($1) OR upper(bio) = upper($2)`, nil, nil, nil},
+	{":many", `SELECT id FROM authors WHERE id = $1 AND (strpos(name, $2) > 0 OR strpos(bio, $2) > 0)`, nil, nil, nil},
+	{":many", `SELECT name FROM authors WHERE id = ANY($1)`, nil, nil, nil},
+	{":many", `SELECT name FROM authors WHERE id = ANY($1::bigint[]) AND age <> ALL($2)`, nil, nil, nil},
+	{":many", `SELECT id FROM authors WHERE tags = $1 AND age = $2::int`, nil, nil, nil},
+	{":many", `SELECT id FROM books WHERE kind = $1 AND "order" = $2`, nil, nil, nil},
+	{":many", `SELECT id FROM authors WHERE name = @name AND bio = @bio AND id <> @id`, nil, nil, nil},
+	{":many", `SELECT id FROM authors WHERE name = sqlc.arg(name) AND age > sqlc.arg('age')`, nil, nil, nil},
+	{":many", `SELECT id FROM authors WHERE a.b.c = $1`, nil, nil, nil},
+	{":many", `SELECT public.authors.id FROM public.authors WHERE public.authors.name = $1`, nil, nil, nil},
+	{":exec", `TRUNCATE authors`, nil, nil, nil},
+	{":many", `SELECT id, NULL AS missing, 0 AS rank, 'x' AS tag FROM authors UNION ALL SELECT id, title, "order", title FROM books`, nil, nil, nil},
+	{":many", `SELECT id, name AS label FROM authors UNION SELECT id, title FROM books`, nil, nil, nil},
+	{":many", `SELECT id, name FROM authors INTERSECT SELECT id, title FROM books EXCEPT SELECT id, slug FROM venues`, nil, nil, nil},
+	{":one", `UPDATE authors SET bio = s.total::text FROM (SELECT author_id, count(*) AS total FROM books GROUP BY author_id) s WHERE s.author_id = authors.id RETURNING *`, nil, nil, nil},
+	{":one", `UPDATE authors SET bio = b.title FROM books b WHERE b.author_id = authors.id RETURNING *`, nil, nil, nil},
+	{":one", `UPDATE authors SET bio = b.title FROM books b WHERE b.author_id = authors.id RETURNING authors.*`, nil, nil, nil},
+	{":one", `DELETE FROM authors USING books b WHERE b.author_id = authors.id RETURNING *`, nil, nil, nil},
+	{":one", `INSERT INTO authors (id, name, tags) VALUES ($1, $2, $3) RETURNING *`, nil, nil, nil},
+	{":many", `SELECT id, name, coalesce(bio, '') AS bio, age, tags FROM authors`, nil, nil, nil},
+	{":many", `SELECT id, name, bio, age::bigint AS age, tags FROM authors`, nil, nil, nil},
+	{":many", `SELECT * FROM nodes`, nil, nil, nil},
+	{":many", `SELECT n.*, a.id AS aid FROM nodes n JOIN authors a ON a.id = n.id`, nil, nil, nil},
+	{":many", `SELECT id, "left", "right", "full", "like", "user", "binary" FROM nodes WHERE "left" = $1`, nil, nil, nil},
+	{":many", `SELECT id FROM authors a WHERE a.name = $1 AND a.id = $2 AND a.bio = $3 AND a.age = $4 AND a.name <> $5 AND a.id <> $6 AND a.bio <> $7 AND a.age <> $8 AND a.name > $9 AND a.id > $10 AND a.bio > $11 AND a.age > $12 AND EXISTS (SELECT 1 FROM books b WHERE b.title = $1)`, nil, nil, nil},
 }
 
 var l2CorpusMy = []corpusStmt{
-	{":many", "SELECT * FROM authors", nil},
-	{":many", "SELECT a.*, b.* FROM authors a JOIN books b ON b.author_id = a.id", nil},
-	{":many", "SELECT * FROM books a JOIN venues b ON b.id = a.id", nil},
-	{":many", "SELECT * FROM books `rank` JOIN authors b ON b.id = `rank`.id", nil},
-	{":many", "SELECT a.id + ?, b.id FROM authors a JOIN books b ON b.author_id = a.id AND b.title = ? WHERE a.name = ?", nil},
-	{":many", "SELECT id, active FROM authors WHERE active = ? AND name = ?", nil},
-	{":exec", "INSERT INTO authors (id, name, bio, age, active) VALUES (?, ?, ?, ?, ?)", nil},
-	{":exec", "INSERT INTO authors (id, name, active) VALUES (?, ?, ?), (?, ?, ?)", nil},
-	{":exec", "UPDATE books SET title = ?, price = ? WHERE id = ?", nil},
-	{":exec", "UPDATE authors SET bio = (SELECT max(b.title) FROM books b WHERE b.author_id = authors.id), name = ? WHERE id = ?", nil},
-	{":execrows", "DELETE FROM authors WHERE id = ? AND name = ?", nil},
-	{":many", "SELECT id FROM authors WHERE name = ? LIMIT ?", nil},
-	{":many", "SELECT id, coalesce(bio, name) AS bio, CASE WHEN id > 0 THEN 'p' ELSE 'n' END AS label, count(*) FROM authors GROUP BY id, bio, name", nil},
-	{":many", "SELECT a.id FROM authors a JOIN authors b ON b.id = a.id WHERE b.name = ?", nil},
-	{":many", "SELECT id FROM authors WHERE lower(name) = lower(?) OR upper(bio) = upper(?)", nil},
+	{":many", "SELECT * FROM authors", nil, nil, nil},
+	{":many", "SELECT a.*, b.* FROM authors a JOIN books b ON b.author_id = a.id", nil, nil, nil},
+	{":many", "SELECT * FROM books a JOIN venues b ON b.id = a.id", nil, nil, nil},
+	{":many", "SELECT * FROM books `rank` JOIN authors b ON b.id = `rank`.id", nil, nil, nil},
+	{":many", "SELECT a.id + ?, b.id FROM authors a JOIN books b ON b.author_id = a.id AND b.title = ? WHERE a.name = ?", nil, nil, nil},
+	{":many", "SELECT id, active FROM authors WHERE active = ? AND name = ?", nil, nil, nil},
+	{":exec", "INSERT INTO authors (id, name, bio, age, active) VALUES (?, ?, ?, ?, ?)", nil, nil, nil},
+	{":exec", "INSERT INTO authors (id, name, active) VALUES (?, ?, ?), (?, ?, ?)", nil, nil, nil},
+	{":exec", "UPDATE books SET title = ?, price = ? WHERE id = ?", nil, nil, nil},
+	{":exec", "UPDATE authors SET bio = (SELECT max(b.title) FROM books b WHERE b.author_id = authors.id), name = ? WHERE id = ?", nil, nil, nil},
+	{":execrows", "DELETE FROM authors WHERE id = ? AND name = ?", nil, nil, nil},
+	{":many", "SELECT id FROM authors WHERE name = ? LIMIT ?", nil, nil, nil},
+	{":many", "SELECT id, coalesce(bio, name) AS bio, CASE WHEN id > 0 THEN 'p' ELSE 'n' END AS label, count(*) FROM authors GROUP BY id, bio, name", nil, nil, nil},
+	{":many", "SELECT a.id FROM authors a JOIN authors b ON b.id = a.id WHERE b.name = ?", nil, nil, nil},
+	{":many", "SELECT id FROM authors WHERE lower(name) = lower(?) OR upper(bio) = upper(?)", nil, nil, nil},
+	{":many", "SELECT first_name, note FROM staff WHERE first_name = ?", nil, [][2]string{{"staff", "first_name"}, {"staff", "note"}}, [][2]string{{"staff", "given_name"}}},
+	{":many", "SELECT given_name FROM staff WHERE given_name = ?", nil, [][2]string{{"staff", "first_name"}, {"staff", "note"}}, [][2]string{{"staff", "given_name"}}},
+	{":many", "SELECT given_name FROM people WHERE given_name = ?", nil, [][2]string{{"people", "given_name"}}, [][2]string{{"people", "first_name"}, {"people", "note"}}},
+	{":many", "SELECT * FROM staff", nil, [][2]string{{"staff", "first_name"}, {"staff", "note"}}, [][2]string{{"staff", "given_name"}}},
 }
 
-func l2Corpus(emitCase func(id, engine, schema string, q QStmt)) {
+func l2Corpus(emitCase func(id, engine, schema string, q QStmt, has, gone [][2]string)) {
 	for i, st := range l2CorpusPG {
-		emitCase(fmt.Sprintf("corpus-pg-%d", i), "postgresql", corpusPG, QStmt{Name: fmt.Sprintf("K%d", i), Cmd: st.cmd, SQL: st.sql, Known: st.known, Tags: []string{"corpus"}})
+		emitCase(fmt.Sprintf("corpus-pg-%d", i), "postgresql", corpusPG, QStmt{Name: fmt.Sprintf("K%d", i), Cmd: st.cmd, SQL: st.sql, Known: st.known, Tags: []string{"corpus"}}, st.has, st.gone)
 	}
 	for i, st := range l2CorpusMy {
-		emitCase(fmt.Sprintf("corpus-my-%d", i), "mysql", corpusMy, QStmt{Name: fmt.Sprintf("K%d", i), Cmd: st.cmd, SQL: st.sql, Known: st.known, Tags: []string{"corpus"}})
+		emitCase(fmt.Sprintf("corpus-my-%d", i), "mysql", corpusMy, QStmt{Name: fmt.Sprintf("K%d", i), Cmd: st.cmd, SQL: st.sql, Known: st.known, Tags: []string{"corpus"}}, st.has, st.gone)
 	}
 }
